@@ -13,19 +13,19 @@ SPECS["C06"] = dict(
     title="a for-loop is equivalent to its textual unrolling",
     imports=STD + "From BB Require Import Syntax Values Eval LoopP.\nLocal Open Scope Z_scope.",
     items=[
-        dict(file="proofs/LoopP.v", name="loop_unroll", comment="the loop = its body written once per value, in order, with the variable replaced by the value converted to the loop type (equality of outcomes: success, refusal, unspecified)"),
-        dict(file="proofs/LoopP.v", name="loop_unroll_range"),
-        dict(file="proofs/LoopP.v", name="range_sem", comment="a:b:c denotes a, a+c, ... strictly below b"),
-        dict(file="proofs/LoopP.v", name="range_sem_neg"),
-        dict(file="proofs/LoopP.v", name="range_zero_refused"),
-        dict(file="proofs/LoopP.v", name="empty_range_nil", comment="an empty range contributes nothing"),
-        dict(file="proofs/LoopP.v", name="loop_empty_range"),
-        dict(file="proofs/LoopP.v", name="loop_empty"),
-        dict(file="proofs/LoopP.v", name="loopvar_scoped", comment="the loop variable is not visible after the loop; the environment is what it was"),
-        dict(file="proofs/LoopP.v", name="loop_env_unchanged"),
-        dict(file="proofs/LoopP.v", name="stmt_after_loop_ops", comment="statements after the loop are unaffected"),
-        dict(file="proofs/LoopP.v", name="loop_bad_value_refused", comment="a listed value that is not of the loop type is refused"),
-        dict(file="proofs/LoopP.v", name="cast_loop_mismatch"),
+        dict(name="loop_unroll", comment="the loop = its body written once per value, in order, with the variable replaced by the value converted to the loop type (equality of outcomes: success, refusal, unspecified)"),
+        dict(name="loop_unroll_range"),
+        dict(name="range_sem", comment="a:b:c denotes a, a+c, ... strictly below b"),
+        dict(name="range_sem_neg"),
+        dict(name="range_zero_refused"),
+        dict(name="empty_range_nil", comment="an empty range contributes nothing"),
+        dict(name="loop_empty_range"),
+        dict(name="loop_empty"),
+        dict(name="loopvar_scoped", comment="the loop variable is not visible after the loop; the environment is what it was"),
+        dict(name="loop_env_unchanged"),
+        dict(name="stmt_after_loop_ops", comment="statements after the loop are unaffected"),
+        dict(name="loop_bad_value_refused", comment="a listed value that is not of the loop type is refused"),
+        dict(name="cast_loop_mismatch"),
     ],
     examples="(* non-vacuity: concrete loops are evaluated in LoopP.Examples (loop_0_3, loop_0_3_by_theorem, loop_3_0_empty, loop_list_refused) *)\n"
              "Definition C06_examples := (Examples.loop_0_3, Examples.loop_0_3_by_theorem, Examples.loop_3_0_empty, Examples.loop_list_refused).\n")
@@ -34,11 +34,85 @@ SPECS["C03"] = dict(
     title="expressions evaluate to their arithmetic value under the grammar's precedence",
     imports=STD + "From BB Require Import Lexer Syntax Parser Values Eval ExprP EvalP.",
     items=[
-        dict(file="proofs/ExprP.v", name="pexpr_yield", comment="the expression parser reads a prefix that spells the tree it returns"),
-        dict(file="proofs/ExprP.v", name="pexpr_strat", comment="... the tree is stratified (sign 9 > ** 8 right-assoc > * / 7 > + - 6, left-assoc) and the parser stops only where it must"),
-        dict(file="proofs/ExprP.v", name="pexpr_complete", comment="... and every stratified tree is read back from its spelling"),
-        dict(file="proofs/ExprP.v", name="strat_unique", comment="hence the stratified reading of a token string is unique"),
-        dict(file="proofs/ExprP.v", name="pexpr_reads"),
+        dict(name="pexpr_yield", comment="the expression parser reads a prefix that spells the tree it returns"),
+        dict(name="pexpr_strat", comment="... the tree is stratified (sign 9 > ** 8 right-assoc > * / 7 > + - 6, left-assoc) and the parser stops only where it must"),
+        dict(name="pexpr_complete", comment="... and every stratified tree is read back from its spelling"),
+        dict(name="strat_unique", comment="hence the stratified reading of a token string is unique"),
+        dict(name="pexpr_reads"),
+    ])
+
+
+SPECS["C03"]["items"] += [
+    dict(name="eval_hom_eq", comment="the computed value denotes the ordinary arithmetic value of the written expression, in any structure K interpreting the operations (numpy's kind promotion never changes the arithmetic value)"),
+    dict(name="eval_hom"),
+    dict(name="int_closed_value", comment="+, -, * and ** (non-negative exponent) on integers stay integers, with the exact Z value"),
+    dict(name="int_value"),
+    dict(name="pow_neg_real"),
+    dict(name="div_real", comment="true division: the result of / is never an integer, also by integer-valued sub-expressions"),
+    dict(name="div_real_term"),
+    dict(name="fn_real"),
+    dict(name="idx_row_major", comment="A[k] is the k-th element in row-major order"),
+    dict(name="idx_row_col"),
+    dict(name="concat_nth_rc"),
+]
+SPECS["C03"]["examples"] = "(* non-vacuity: EvalP proves concrete evaluations (7/2, 2**3**2 = 512, (-2)**2 = 4, 2**-3 real, ...) and ExprP parses `- 2 ** 2`, `2 ** 3 ** 2`, `1 - 2 - 3`, `1 + 2 * 3` by vm_compute *)\n"
+
+SPECS["C05"] = dict(
+    title="variables have their declared type; arrays keep written layout and shape",
+    imports=STD + "From BB Require Import Syntax Values Eval EvalP.",
+    items=[
+        dict(name="cast_scalar_kind", comment="a scalar variable holds a value of its declared type ..."),
+        dict(name="cast_scalar_value", comment="... equal to the value of its initialiser"),
+        dict(name="cast_scalar_complex_refused"),
+        dict(name="cast_scalar_refuse_inv"),
+        dict(name="array_layout", comment="an accepted array declaration binds a two-dimensional array with the declared element type whose rows are the written rows; a declared shape equals the actual one"),
+        dict(name="array_layout_rc", comment="element (i, j) is the j-th entry of the i-th written row (row-major storage)"),
+        dict(name="idx_row_col"),
+        dict(name="idx_out_of_range"),
+        dict(name="cast_elem_kind"),
+        dict(name="cast_elem_value"),
+        dict(name="cast_elem_refuses"),
+    ])
+
+SPECS["C11"] = dict(
+    title="ill-formed but grammatical programs are refused, never silently accepted",
+    imports=STD + "From BB Require Import Syntax Values Eval EvalP.",
+    items=[
+        dict(name="undefined_never_ok", comment="an expression mentioning an undefined name never evaluates to a value, whatever surrounds it (every operator is strict)"),
+        dict(name="undefined_leftmost_refuse", comment="... and is refused as 'undefined' with the identifier and its line and column"),
+        dict(name="refuse_undefined_sound"),
+        dict(name="eval_args_undefined", comment="the same through positional, keyword and keyword-list arguments, modes, declarations, loop lists"),
+        dict(name="exec_stmt_undefined"),
+        dict(name="exec_scalar_undefined"),
+        dict(name="array_undefined"),
+        dict(name="for_list_undefined"),
+        dict(name="cast_scalar_complex_refused", comment="a complex value assigned to an int or float variable is refused"),
+        dict(name="cast_elem_refuses"),
+        dict(name="cast_loop_refuses", comment="a listed loop value that is not of the loop type is refused"),
+        dict(name="for_list_ok"),
+    ])
+
+SPECS["C02"] = dict(
+    title="loading a script yields exactly the program the script denotes",
+    imports=STD + "From BB Require Import Syntax Values Eval LoadP.",
+    items=[
+        dict(name="meta_as_written", comment="name, version, target and type are the ones written; options are the written option values (evaluated in the empty environment)"),
+        dict(name="exec_stmt_plain", comment="one operation per executed statement, with the written gate name, the written modes in order as integers and the values of the written arguments"),
+        dict(name="ops_append_only", comment="operations are only ever appended, in textual order"),
+        dict(name="ops_in_order"),
+        dict(name="modes_union", comment="the reported mode set is exactly the union of the modes used (no duplicates)"),
+        dict(name="modes_union_incs"),
+    ])
+
+SPECS["C15"] = dict(
+    title="TDM programs pass p-arrays by name and keep their data",
+    imports=STD + "From BB Require Import Syntax Values Eval LoadP.",
+    items=[
+        dict(name="pname_by_name", comment="in a tdm program a declared p-array is registered under its name and its data stay available under that name"),
+        dict(name="pname_eval", comment="a registered p-array used as an argument is delivered as its name"),
+        dict(name="non_pname_by_value", comment="any other variable is passed by value"),
+        dict(name="pname_only_tdm_ptype"),
+        dict(name="pnames_not_params", comment="p-array names are never reported as free parameters"),
     ])
 
 
